@@ -6,7 +6,15 @@
 #include <fcppt/record/make_label.hpp>
 #include <fcppt/string.hpp>
 #include <fcppt/args_vector.hpp>
+#include <fcppt/from_std_string.hpp>
+#include <fcppt/text.hpp>
+#include <fcppt/variant/match.hpp>
 #include <fcppt/options/active_value.hpp>
+#include <fcppt/options/apply.hpp>
+#include <fcppt/options/argument.hpp>
+#include <fcppt/options/make_many.hpp>
+#include <fcppt/options/make_optional.hpp>
+#include <fcppt/options/make_sum.hpp>
 #include <fcppt/options/default_value.hpp>
 #include <fcppt/options/flag.hpp>
 #include <fcppt/options/inactive_value.hpp>
@@ -97,6 +105,116 @@ std::string op_options(std::string const &_op, line_t const &L)
   throw bad_op{};
 }
 
+// ---------------------------------------------------------------- options: result records moved through the combinators
+
+FCPPT_RECORD_MAKE_LABEL(lar0);
+FCPPT_RECORD_MAKE_LABEL(lar1);
+FCPPT_RECORD_MAKE_LABEL(lar2);
+FCPPT_RECORD_MAKE_LABEL(lsum);
+
+template <typename P>
+auto run_parser(P const &_p, fcppt::args_vector _args)
+{
+  return _p.parse(fcppt::options::state{std::move(_args)}, fcppt::options::parse_context{_p.option_names()});
+}
+
+template <typename T>
+std::string op_options_more(std::string const &_op, line_t const &L)
+{
+  namespace fo = fcppt::options;
+  need(L.args.empty() && L.par.size() == 1 && L.par[0] >= 0 && L.par[0] <= 16);
+  int const k{L.par[0]};
+  fcppt::args_vector args;
+  for (int i = 0; i < (_op == "optssum" ? (k == 0 ? 2 : 1) : k); ++i)
+    args.push_back(fcppt::from_std_string(std::to_string(1000 + i)));
+  auto const arg0{[] { return fo::argument<lar0, T>{fo::long_name{fcppt::string{FCPPT_TEXT("a0")}}, fo::optional_help_text{}}; }};
+  auto const arg1{[] { return fo::argument<lar1, T>{fo::long_name{fcppt::string{FCPPT_TEXT("a1")}}, fo::optional_help_text{}}; }};
+  auto const arg2{[] { return fo::argument<lar2, T>{fo::long_name{fcppt::string{FCPPT_TEXT("a2")}}, fo::optional_help_text{}}; }};
+  g_log.clear();
+  if (_op == "optsarg")
+  {
+    need(k <= 1);
+    auto const p{arg0()};
+    auto const r{run_parser(p, std::move(args))};
+    event_log const log{g_log};
+    slots_t sr;
+    if (r.has_success())
+      sr.add(fcppt::record::get<lar0>(r.get_success_unsafe().value()));
+    return finish(r.has_success() ? "S" : "F", sr.str(), {}, log);
+  }
+  if (_op == "optsoptional")
+  {
+    need(k <= 1);
+    auto const p{fo::make_optional(arg0())};
+    auto const r{run_parser(p, std::move(args))};
+    event_log const log{g_log};
+    slots_t sr;
+    std::string tag{"F"};
+    if (r.has_success())
+    {
+      auto const &o{fcppt::record::get<lar0>(r.get_success_unsafe().value())};
+      tag = o.has_value() ? "SJ" : "SN";
+      if (o.has_value())
+        sr.add(o.get_unsafe());
+    }
+    return finish(tag, sr.str(), {}, log);
+  }
+  if (_op == "optsproduct")
+  {
+    need(k <= 2);
+    auto const p{fo::apply(arg0(), arg1())};
+    auto const r{run_parser(p, std::move(args))};
+    event_log const log{g_log};
+    slots_t sr;
+    if (r.has_success())
+    {
+      sr.add(fcppt::record::get<lar0>(r.get_success_unsafe().value()));
+      sr.add(fcppt::record::get<lar1>(r.get_success_unsafe().value()));
+    }
+    return finish(r.has_success() ? "S" : "F", sr.str(), {}, log);
+  }
+  if (_op == "optsmany")
+  {
+    auto const p{fo::make_many(arg0())};
+    auto const r{run_parser(p, std::move(args))};
+    event_log const log{g_log};
+    slots_t sr;
+    if (r.has_success())
+      sr.add_range(fcppt::record::get<lar0>(r.get_success_unsafe().value()));
+    return finish(r.has_success() ? "S" : "F", sr.str(), {}, log);
+  }
+  if (_op == "optssum")
+  {
+    need(k <= 1);
+    auto const p{fo::make_sum<lsum>(fo::apply(arg0(), arg1()), arg2())};
+    auto const r{run_parser(p, std::move(args))};
+    event_log const log{g_log};
+    slots_t sr;
+    std::string tag{"F"};
+    if (r.has_success())
+    {
+      auto const &v{fcppt::record::get<lsum>(r.get_success_unsafe().value())};
+      tag = fcppt::variant::match(
+          v,
+          [&sr](auto const &_left) -> std::string
+          requires requires { fcppt::record::get<lar0>(_left.get()); }
+          {
+            sr.add(fcppt::record::get<lar0>(_left.get()));
+            sr.add(fcppt::record::get<lar1>(_left.get()));
+            return "L";
+          },
+          [&sr](auto const &_right) -> std::string
+          requires requires { fcppt::record::get<lar2>(_right.get()); }
+          {
+            sr.add(fcppt::record::get<lar2>(_right.get()));
+            return "R";
+          });
+    }
+    return finish(tag, sr.str(), {}, log);
+  }
+  throw bad_op{};
+}
+
 template <typename T>
 bool dispatch(std::string const &_op, line_t const &L, std::string &_out)
 {
@@ -104,6 +222,8 @@ bool dispatch(std::string const &_op, line_t const &L, std::string &_out)
     return (_out = op_options<T>(_op, L), true);
   if (_op == "optsoption")
     return (_out = op_options<T>(_op, L), true);
+  if (_op == "optsarg" || _op == "optsoptional" || _op == "optsproduct" || _op == "optsmany" || _op == "optssum")
+    return (_out = op_options_more<T>(_op, L), true);
   return false;
 }
 }
